@@ -667,6 +667,54 @@ def run_unique(ctx, mods, sizes, nops, reverse):
     return len(paths)
 
 
+def replay_oblique(data):
+    """real API: a C-C unit whose bond crosses a cell face along the face normal, the inner atom just inside the face, in strongly
+    oblique cells (P1, P-1 and P2_1); the symbolic cell harness runs one concrete moderately oblique cell, in which the
+    perpendicular widths and the edge lengths differ little"""
+    from chmpy.crystal import Crystal, UnitCell, SpaceGroup, AsymmetricUnit
+    from chmpy.core.element import Element
+    bad = []
+    for angles in ((90.0, 130.0, 90.0), (90.0, 52.0, 90.0), (90.0, 90.0, 128.0), (70.0, 125.0, 65.0)):
+        for sgn in (1, 2, 4):
+            if sgn == 4 and not (angles[0] == 90.0 and angles[2] == 90.0):
+                continue
+            cell = UnitCell.from_lengths_and_angles([10.0, 11.0, 9.5], list(angles), unit="degrees")
+            D = np.asarray(cell.direct, float)
+            for face in range(3):
+                for inside in (0.01, 0.004):
+                    f1 = np.array([0.37, 0.29, 0.41])
+                    f1[face] = inside
+                    p1 = f1 @ D
+                    nrm = np.cross(D[(face + 1) % 3], D[(face + 2) % 3])
+                    nrm /= np.linalg.norm(nrm)
+                    if (nrm @ np.linalg.inv(D))[face] < 0:
+                        nrm = -nrm
+                    p2 = p1 - 1.54 * nrm                    # partner beyond the face, along its normal
+                    frac = np.array([p1, p2]) @ np.linalg.inv(D)
+                    tag = "angles %s, space group %d, bond across face %d with the inner atom %.3g inside" % (angles, sgn, face, inside)
+                    try:
+                        c = Crystal(cell, SpaceGroup(sgn), AsymmetricUnit([Element[6], Element[6]], frac))
+                        mols = c.unit_cell_molecules()
+                        nops = len(c.space_group.symmetry_operations)
+                        if len(mols) != nops or any(len(m) != 2 or abs(np.linalg.norm(m.positions[0] - m.positions[1]) - 1.54) > 1e-6 for m in mols):
+                            bad.append("%s: %d molecules of sizes %s instead of %d whole C2 units" % (tag, len(mols), [len(m) for m in mols], nops))
+                        elif len(c.symmetry_unique_molecules()) != 1:
+                            bad.append("%s: %d symmetry-unique molecules instead of 1" % (tag, len(c.symmetry_unique_molecules())))
+                    except Exception as e:
+                        bad.append("%s: %s: %s" % (tag, type(e).__name__, e))
+                    if bad:
+                        return True, bad
+    return False, ["oblique cells: none fails"]
+
+
+def part_oblique(ctx):
+    r, det = replay_oblique({})
+    ctx.record("whole molecules for a bond crossing each cell face along its normal in strongly oblique cells (4 cells x P1, P-1, P2_1 x 3 faces x 2 depths; real classes)",
+               "counterexample" if r else "holds", nontrivial=True, method="ground instances")
+    if r:
+        ctx.violation("oblique:cell", det[0], {}, replay_oblique)
+
+
 def replay_mass(data):
     """real API: a diatomic molecule (element Z bonded to carbon, or to oxygen for Z = 6) along the a axis of an orthogonal P1 cell,
     placed so that the cell face lies midway between its centre of mass by standard atomic weights and by the library's table: the
@@ -717,6 +765,7 @@ def part_masses(ctx):
 
 
 REPLAY["mass"] = replay_mass
+REPLAY["oblique"] = replay_oblique
 
 
 # ----------------------------------------------------------------------------------------- run
@@ -767,6 +816,7 @@ def run(ctx):
         for rev in (False, True):
             sections.append(("unique %s x%d %s" % (sizes, nops, rev), uniq_section(sizes, nops, rev)))
     sections.append(("masses", part_masses))
+    sections.append(("oblique", part_oblique))
     from . import c03 as _c03
     sections += _c03.dependency_sections({"slab"})
     ctx.parallel_sections(sections, nproc=16)
